@@ -70,6 +70,38 @@ Proof.
       rewrite <- app_assoc. cbn [app]. replace (S n + N) with (n + S N) by lia. reflexivity.
 Qed.
 
+(* for-in: the same, without handler and without closing *)
+Theorem cforin_correct code p (F : list (frame V)) T : code_at code p (cforin p) ->
+  forall it r e nid l n,
+  exists k it' r' e',
+    run T code k (mk V p it r e F nid T l n false) =
+    Some (let '(L, N, C, nid') := spec_in V body it nid in
+          mk V (8 + p) it' r' e' F nid' T (l ++ L) (n + N) C).
+Proof.
+  intros H it. unfold spec_in. induction it as [|v it IH]; intros r e nid l n.
+  - exists 2, [], (RDone V), e. cbn [ForOf.run pc]. fetch H 0. cbn [exec pc]. fetch H 1. cbn [exec pc ForOf.spec].
+    rewrite app_nil_r. replace (n + 1) with (S n) by lia. reflexivity.
+  - cbn [ForOf.spec]. destruct (body v) eqn:B.
+    + destruct (IH (RVal V v) v (S nid) (l ++ [(nid, Some v)]) (S n)) as (k & it' & r' & e' & E).
+      exists (8 + k), it', r', e'. rewrite run_add.
+      cbn [ForOf.run pc]. fetch H 0. cbn [exec pc]. fetch H 1. cbn [exec pc]. fetch H 2. cbn [exec pc].
+      fetch H 3. cbn [exec pc]. fetch H 4. cbn [exec pc]. fetch H 5. cbn [exec pc top_id]. rewrite B. cbv iota zeta. cbn [pc].
+      fetch H 6. cbn [exec pc tl]. fetch H 7. cbn [exec pc].
+      rewrite E. destruct (spec it (S nid)) as [[[L N] C] nid'].
+      rewrite <- app_assoc. cbn [app]. replace (S n + N) with (n + S N) by lia. reflexivity.
+    + exists 6, it, (RVal V v), v.
+      cbn [ForOf.run pc]. fetch H 0. cbn [exec pc]. fetch H 1. cbn [exec pc]. fetch H 2. cbn [exec pc].
+      fetch H 3. cbn [exec pc]. fetch H 4. cbn [exec pc]. fetch H 5. cbn [exec pc top_id]. rewrite B. cbv iota zeta. cbn [pc].
+      cbn [skipn]. replace (n + 1) with (S n) by lia. reflexivity.
+    + destruct (IH (RVal V v) v (S nid) (l ++ [(nid, Some v)]) (S n)) as (k & it' & r' & e' & E).
+      exists (6 + k), it', r', e'. rewrite run_add.
+      cbn [ForOf.run pc]. fetch H 0. cbn [exec pc]. fetch H 1. cbn [exec pc]. fetch H 2. cbn [exec pc].
+      fetch H 3. cbn [exec pc]. fetch H 4. cbn [exec pc]. fetch H 5. cbn [exec pc top_id]. rewrite B. cbv iota zeta. cbn [pc].
+      cbn [skipn].
+      rewrite E. destruct (spec it (S nid)) as [[[L N] C] nid'].
+      rewrite <- app_assoc. cbn [app]. replace (S n + N) with (n + S N) by lia. reflexivity.
+Qed.
+
 (* ---- the meaning in closed form ---- *)
 
 Lemma spec_log it : forall nid,
